@@ -3,6 +3,7 @@ package sim
 import (
 	"fmt"
 	"math"
+	"os"
 	"strings"
 	"testing/synctest"
 
@@ -755,6 +756,7 @@ func (c *Cluster) staleHeadScenario() {
 	if byz == nil || abortRun.Load() {
 		return
 	}
+	c.staleHeadDirected(byz)
 	chain := c.dag.byCI[byz.pubHex]
 	if len(chain) == 0 || len(c.dag.forks) > 0 {
 		return
@@ -791,6 +793,14 @@ func (c *Cluster) staleHeadScenario() {
 		c.stats.probe("c07-stale-head-precondition-not-met")
 		return
 	}
+	c.staleHeadAttempts(in, byz, head, headIdx, cache)
+}
+
+// staleHeadAttempts: the forger's latest event (head, index headIdx) is still
+// the last entry of its per-participant index in the instance but has been
+// evicted from the event cache; index-reusing events on top of it must be refused.
+func (c *Cluster) staleHeadAttempts(in *instance, byz *SimNode, head string, headIdx, cache int) {
+	store := in.h.Store
 	// an other-parent the instance can read
 	var other *hg.Event
 	for _, n := range c.nodes {
@@ -925,4 +935,101 @@ func (c *Cluster) rolledWindowScenario() {
 			store.ParticipantEvent(pub, v)
 		}()
 	}
+}
+
+// staleHeadDirected builds the stale-head precondition on purpose: a small
+// history among the genesis validators in which the forger's last event is
+// referenced by nobody, followed by more events of the others than the
+// instance's event cache holds (the forger's head is then evicted while still
+// being the last entry of its index). Sequential, deterministic.
+func (c *Cluster) staleHeadDirected(byz *SimNode) {
+	vals := []*SimNode{}
+	fi := -1
+	for _, m := range c.genesisSet {
+		if m == byz {
+			fi = len(vals)
+		}
+		vals = append(vals, m)
+	}
+	if fi < 0 || len(vals) < 4 {
+		c.stats.probe("c07-stale-head-directed-skipped")
+		return
+	}
+	r := NewRNG(Mix(c.seed, 0x7374616c))
+	cache := r.Range(12, 40)
+	in := c.newInstance("stale-head-directed", "inmem", cache)
+	defer in.close()
+	n := len(vals)
+	heads := make([]string, n)
+	idx := make([]int, n)
+	for i := range idx {
+		idx[i] = -1
+	}
+	ts := int64(946684800)
+	ok := true
+	mk := func(a, b int) {
+		op := ""
+		if b >= 0 {
+			op = heads[b]
+		}
+		ts++
+		ev := newEvent(vals[a], idx[a]+1, heads[a], op, nil, nil, nil, ts)
+		signEvent(ev, vals[a])
+		// (insertion only: a consensus pass would trip over the evicted,
+		// never-referenced event, which stays undetermined for good)
+		if err := in.h.InsertEvent(ev, true); err != nil {
+			if os.Getenv("SIM_TRACE") != "" {
+				fmt.Printf("stale-head-directed: insert %d on %d: %v\n", a, b, err)
+			}
+			ok = false
+			return
+		}
+		heads[a] = ev.Hex()
+		idx[a]++
+	}
+	for a := 0; a < n; a++ {
+		mk(a, -1)
+	}
+	// everybody gossips for a while, the forger included
+	for k := r.Range(1, 3) * n; k > 0 && ok; k-- {
+		a := r.Intn(n)
+		b := (a + 1 + r.Intn(n-1)) % n
+		mk(a, b)
+	}
+	// the forger's last event, which nobody will ever build on
+	others := []int{}
+	for i := range vals {
+		if i != fi {
+			others = append(others, i)
+		}
+	}
+	mk(fi, others[r.Intn(len(others))])
+	head, headIdx := heads[fi], idx[fi]
+	frozen := heads[fi]
+	_ = frozen
+	// the others go on among themselves (they keep referring to the forger's
+	// earlier events only through their own ancestors)
+	for k := 0; k < 3*cache+10 && ok; k++ {
+		a := others[r.Intn(len(others))]
+		b := others[r.Intn(len(others))]
+		if a == b {
+			continue
+		}
+		mk(a, b)
+	}
+	if !ok {
+		c.stats.probe("c07-stale-head-directed-insert-error")
+		return
+	}
+	store := in.h.Store
+	if last, err := store.LastEventFrom(byz.pubHex); err != nil || last != head {
+		c.stats.probe("c07-stale-head-directed-precondition-not-met")
+		return
+	}
+	if _, err := store.GetEvent(head); err == nil {
+		c.stats.probe("c07-stale-head-directed-head-still-cached")
+		return
+	}
+	c.stats.probe("c07-stale-head-directed")
+	c.staleHeadAttempts(in, byz, head, headIdx, cache)
 }
